@@ -126,10 +126,17 @@ func classify(c *Case, o *Outcome) (bool, []string) {
 	return nt, cl
 }
 
-// sawFailure: once a failing execution was seen in this process (rapid is
-// then shrinking), candidates are executed up to retriesWhenShrinking times
-// because the verdict of one execution depends on the schedule.
-var sawFailure bool
+// A failing execution does not stop the search of this process: the verdict of
+// one execution depends on the schedule, rapid's shrinking (which needs a
+// reproducible failure and many re-executions) is of little use at 1-2 s per
+// execution, and an open finding that shows up in every tenth case would
+// otherwise hide everything behind it. Every violation is recorded (for one
+// signature the smallest failing case seen is kept as the replay file); the
+// test function fails at the end. VERIF_C07_STOP=1 restores stop-and-shrink.
+var (
+	sawFailure bool
+	stopMode   = os.Getenv("VERIF_C07_STOP") != ""
+)
 
 const retriesWhenShrinking = 2
 
@@ -138,7 +145,7 @@ func execute(c *Case) *Outcome {
 	if o.Infra != "" {
 		return o
 	}
-	if len(o.Viol) == 0 && sawFailure {
+	if len(o.Viol) == 0 && sawFailure && stopMode {
 		for i := 1; i < retriesWhenShrinking; i++ {
 			o2 := runChild(c)
 			if o2.Infra != "" {
@@ -153,6 +160,7 @@ func execute(c *Case) *Outcome {
 }
 
 func TestProp(t *testing.T) {
+	var failed []string
 	rapid.Check(t, func(t *rapid.T) {
 		c := genCase(t)
 		o := execute(&c)
@@ -186,16 +194,41 @@ func TestProp(t *testing.T) {
 				path = ev.R().Fail(v.Sig, v.Msg, Doc{Property: "C07", Signature: v.Sig, Case: c, Message: v.Msg, Result: o.Res})
 				sigs = append(sigs, v.Sig)
 			}
-			// the message is kept stable (signatures only) so that rapid can
-			// recognise the same failure while shrinking
-			t.Fatalf("C07 violated: %s (replay %s)", strings.Join(sigs, " | "), path)
+			ev.R().Count("violating_executions", 1)
+			if stopMode {
+				// the message is kept stable (signatures only) so that rapid
+				// can recognise the same failure while shrinking
+				t.Fatalf("C07 violated: %s (replay %s)", strings.Join(sigs, " | "), path)
+			}
+			failed = append(failed, sigs...)
+			for _, sg := range sigs {
+				if strings.HasPrefix(sg, "hang:") {
+					// every further hanging case would cost this process another 30 s
+					t.Fatalf("C07 violated: %s (replay %s); search of this process stopped after a hang", strings.Join(sigs, " | "), path)
+				}
+			}
 		}
 	})
+	if len(failed) > 0 {
+		t.Errorf("C07 violated in %d execution(s); signatures: %s", len(failed), strings.Join(uniq(failed), " | "))
+	}
+}
+
+func uniq(in []string) []string {
+	seen := map[string]bool{}
+	var out []string
+	for _, s := range in {
+		if !seen[s] {
+			seen[s] = true
+			out = append(out, s)
+		}
+	}
+	return out
 }
 
 // TestReplay re-executes a saved case without the library. The verdict of one
 // execution depends on the schedule, so the case is executed up to N times
-// (VERIF_C07_REPLAYS, default 6 quick / 20 thorough) and the replay fails as
+// (VERIF_C07_REPLAYS, default 4 quick / 20 thorough) and the replay fails as
 // soon as one execution violates the property (the saved signature is
 // preferred when several are seen).
 func TestReplay(t *testing.T) {
@@ -211,7 +244,7 @@ func TestReplay(t *testing.T) {
 	if err := json.Unmarshal(b, &d); err != nil {
 		t.Fatal(err)
 	}
-	n := 6
+	n := 4
 	if ev.Tier() == "thorough" {
 		n = 20
 	}
